@@ -5,6 +5,7 @@
    first successful poll. *)
 From Coq Require Import List.
 From TeosModel Require Import Reach.
+From TeosModel.Gen Require Bootstrap.
 
 (* From the moment the tower has noticed the outage the public API takes on no new work. *)
 Theorem C12_unavailable_after_notice s : flag s = false -> api s = A_none -> rstep s E_api_rpc = s.
@@ -53,6 +54,13 @@ Theorem C12_request_recovery_reached :
   api s1 = A_done /\ flag s1 = true.
 Proof. exact predict_request_recovers. Qed.
 
+(* What the protocol model takes from the source, regenerated on every run: every round of the monitor loop runs
+   poll_best_tip() to completion (a poll cancelled half-way would lose the SPV client's partial progress and deliver
+   blocks twice); a successful poll sets the flag and notifies (E_poll in Reach.v). *)
+Theorem C12_monitor_polls_to_completion : Bootstrap.MONITOR_LOOP_POLLS_TO_COMPLETION = true.
+Proof. reflexivity. Qed.
+
+Print Assumptions C12_monitor_polls_to_completion.
 Print Assumptions C12_unavailable_after_notice.
 Print Assumptions C12_polls_keep_flag_down.
 Print Assumptions C12_request_path_recovers.
